@@ -53,6 +53,8 @@ type Unit struct {
 	cellStatic map[string]Val
 	hyps      []hyp
 	ghostSyms []string
+	strLits   map[string]string // literal constant symbol -> Go string
+	extraCands []string
 	trackCalls map[string]bool
 	argKeyType map[string]types.Type
 	ghostBlock map[string]*ssa.BasicBlock
@@ -499,4 +501,26 @@ func (u *Unit) heapTypingA(key, c, allocBound string) {
 			u.typingLines[len(u.lines)-1] = true
 		}
 	}
+}
+
+// strEq: Go string equality. Against a short literal it is spelled out (length and characters);
+// otherwise strings are compared structurally (strings are assumed to be in canonical form).
+func (u *Unit) strEq(a, b string) string {
+	lit, other := "", ""
+	if s, ok := u.strLits[a]; ok {
+		lit, other = s, b
+	} else if s, ok := u.strLits[b]; ok {
+		lit, other = s, a
+	} else {
+		return "(= " + a + " " + b + ")"
+	}
+	if len(lit) > 16 {
+		return "(= " + a + " " + b + ")"
+	}
+	m := u.mode
+	parts := []string{fmt.Sprintf("(= (S_len %s) %s)", other, m.idxLit(int64(len(lit))))}
+	for i := 0; i < len(lit); i++ {
+		parts = append(parts, fmt.Sprintf("(= (select (S_arr %s) %s) %s)", other, m.idxLit(int64(i)), m.intLit(bigInt(int64(lit[i])), intInfo{8, false})))
+	}
+	return "(and " + strings.Join(parts, " ") + ")"
 }
